@@ -41,7 +41,8 @@ pub fn gen_min_case(rng: &mut Rng, tier: &str, prop: &str, degenerate: bool) -> 
             dup_id_pct: 3,
             mega_1_in: 15000,
             twin_mega_1_in: 0,
-            many_1_in: 1500,
+            many_1_in: 800,
+            overflow_top_w: 3,
     };
     let records = g.gen(rng);
     let container = gen_container(rng, &records, false, true);
